@@ -24,6 +24,7 @@ def decoder_types(mod):
 def analyse_decoder_unit(mod):
     unit = Unit(mod)
     unit.private_state = True
+    unit.use_sym = __import__("os").environ.get("LHSA_DECSYM", "1") == "1"
     unit.given = dict(A.GIVEN_FIELDS)
     unit.site_assumptions = A.site_assumptions()
     contracts = {}
